@@ -248,6 +248,22 @@ def w_histories(ctx: core.Ctx, arg):
                     ok = False
             if not ok:
                 break
+        if ok and hno == 0:
+            # last act of the history: the provider application removes a context state through the entity interface (the library offers
+            # that; BICEPS has no report for it), then reports another context change.  The consumer has then processed every report.
+            victims = [(d, sorted(st.Handle for st in mdib.context_states.descriptor_handle.get(d, []))) for d in mdibops.catalog(mdib)['context']]
+            victims = [(d, hs) for d, hs in victims if hs]
+            if victims:
+                d, hs = victims[0]
+                op = {'op': 'ctx_delete', 'sub': 'delete', 'descr': d, 'victims': hs[:1], 'other': None, 'new_handle': 'unused', 'iface': 'entity', 'seed': 1}
+                monitor.detail = {**label, 'step': 'ctx_delete', 'op': op}
+                ap = mdibops.apply_op(mdib, op, memo)
+                follow = {'op': 'context', 'sub': 'new', 'descr': d, 'new_handle': f'after_delete_{arg["i"]}', 'iface': 'classic', 'seed': 2}
+                mdibops.apply_op(mdib, follow, memo)
+                ctx.count('op.ctx_delete')
+                ctx.case(('tr', mdib_file, variant) + mdibops.op_shape(ap), nontrivial=ap.outcome == 'ok')
+                for cname, cm, watch, netloc in consumers[:1]:
+                    compare(ctx, cname, snap(mdib), cm, {**label, 'step': 'ctx_delete', 'op': op, 'outcome': ap.outcome, 'followed_by': follow})
         ctx.count(f'world.instance_id.{instance_id}')
         ctx.case(tuple(shapes) + (variant,), nontrivial=any(s[5] == 'ok' for s in shapes))
         if hno == 0 and arg['i'] == 0:
